@@ -1,5 +1,5 @@
 (* Model.KVRangeRun: case type and executable checkers for Run/cases_C05.v (no proofs). *)
-From DV Require Import Base.Prelude Base.Int Base.Lex Base.KeyShape Gen.Consts Gen.KeyClasses
+From DV Require Import Base.Prelude Base.Int Base.Lex Base.KeyShape Gen.Consts Gen.KeyClasses Gen.LocalConsts
      Model.Keys Model.KV Model.KVRange Model.KeysRun.
 Local Open Scope N_scope.
 
@@ -40,6 +40,14 @@ Record mquery := {
   m_send : res (list bytes)                 (* db.SendKeysInRange: full storage keys *)
 }.
 
+(* a query of the wide-key section: key strings of any length and alphabet *)
+Record wquery := {
+  w_lo : bytes; w_hi : bytes;
+  w_range : res (list (bytes * bytes));      (* db.GetRange *)
+  w_keys : res (list bytes);                 (* db.KeysInRange *)
+  w_http : res (list bytes)                  (* GET keyrange/lo/hi, names mapped back to the key bytes *)
+}.
+
 Inductive c05case :=
 (* one version of one branched history of a keyvalue instance *)
 | CVersion (i v : N) (s : store) (table : list (bytes * verdict))
@@ -53,6 +61,18 @@ Inductive c05case :=
 | CMulti (i v : N) (s : store) (table : list (bytes * verdict))
          (points : list (bytes * res (option bytes)))
          (queries : list mquery)
+(* keyvalue keys of every length 1..80 and every byte class (control, punctuation, DEL, 2/3/4-byte
+   UTF-8, invalid UTF-8, leading 0xFF) at one version: db.Get and GET key/k of every key, GET keys,
+   and intervals whose ends are stored keys *)
+| CWide (i v : N) (s : store) (table : list (bytes * verdict))
+        (points : list (bytes * res (option bytes) * res (option bytes)))
+        (all_keys : res (list bytes))
+        (queries : list wquery)
+(* a range holding a number of keys at an internal batch threshold, judged by projected facts:
+   what = 0 DeleteRange, 1 GetRange, 2 KeysInRange, 3 ProcessRange, 4 PutRange, 5 DeleteAll;
+   count keys were placed in the interval, outside keys next to it; found = keys of the interval the
+   operation returned in the right order (reads) / that are readable afterwards (writes) *)
+| CBatch (what : nat) (threshold count : N) (found : N) (outside_before outside_after : N) (ok : bool)
 (* db.DeleteRange(VersionedCtx(i, v), lo, hi) with TKeys lo, hi; db.Get of every (version, TKey) before and after *)
 | CDeleteRange (i v : N) (before : store) (table : list (bytes * verdict)) (lo hi : bytes)
                (go_ok : bool) (after : store)
@@ -101,6 +121,24 @@ Definition model_ok (c : c05case) : bool :=
                       res_eqb (opt_eqb bytes_eqb) g (point_model table i v k s)) points &&
     okeys_eqb all_keys (kv_keys (best_of table) (cxof i v) s) &&
     forallb (query_ok table i v s) queries
+  | CWide i v s table points all_keys queries =>
+    let best := best_of table in
+    let cx := cxof i v in
+    (* a case without a dump is judged by the oracle only *)
+    match s with [] => true | _ => 
+    forallb (fun p => let '(k, g, _) := p in
+                      res_eqb (opt_eqb bytes_eqb) g (point_model table i v k s)) points &&
+    okeys_eqb all_keys (kv_keys best cx s) &&
+    forallb (fun q =>
+      okv_eqb (w_range q) (get_range best cx (kv_tkey (w_lo q)) (kv_tkey (w_hi q)) s) &&
+      okeys_eqb (w_keys q) (keys_in_range best cx (kv_tkey (w_lo q)) (kv_tkey (w_hi q)) s) &&
+      okeys_eqb (w_http q) (kv_keyrange best cx (w_lo q) (w_hi q) s)) queries
+    end
+  | CBatch what threshold count found ob oa ok =>
+    (* the threshold is the constant of the source, the count one of its boundary values *)
+    let t := match what with 5%nat => n_badger_DeleteAll_BATCH_SIZE | _ => n_badger_DeleteRange_BATCH_SIZE end in
+    (threshold =? t) &&
+    existsb (N.eqb count) [t - 1; t; t + 1; 2 * t; 2 * t + 1]
   | CMulti i v s table points queries =>
     let best := best_of table in
     let cx := cxof i v in
@@ -223,6 +261,33 @@ Definition spec_class (c : c05case) : nat :=
       | Panic => 6%nat
       end in
     fold_left worse (map (spec_query table s points) queries) (worse c_keys c_multi)
+  | CWide i v s table points all_keys queries =>
+    let universe := sort_keys (map (fun p => fst (fst p)) points) in
+    let get_db k := match find (fun p => bytes_eqb (fst (fst p)) k) points with Some (_, g, _) => g | None => Ok None end in
+    let get_http k := match find (fun p => bytes_eqb (fst (fst p)) k) points with Some (_, _, g) => g | None => Ok None end in
+    (* GET keys = the keys whose point read finds a value *)
+    let c_keys := match all_keys with
+                  | Ok ks => judge 2 ks (filter (fun k => found (get_http k)) universe)
+                  | Err => 4%nat | Panic => 6%nat end in
+    (* the two point reads agree on what exists *)
+    let c_pts := if forallb (fun p => let '(_, g, h) := p in Bool.eqb (found g) (found h)) points then 0%nat else 2%nat in
+    fold_left worse (map (fun q =>
+      let inside := filter (in_interval (w_lo q) (w_hi q)) universe in
+      let exp_db := filter (fun k => found (get_db k)) inside in
+      let exp_http := filter (fun k => found (get_http k)) inside in
+      match w_range q, w_keys q, w_http q with
+      | Ok rg, Ok ks, Ok hk =>
+        let vals_ok := forallb (fun e => match get_db (match decode_term_tkey kc_keyvalue_NewTKey (fst e) with Ok k => k | _ => [] end) with
+                                         | Ok (Some v) => bytes_eqb v (snd e) | _ => false end) rg in
+        if negb (keys_eqb (map fst rg) (map kv_tkey exp_db) && vals_ok && keys_eqb ks (map kv_tkey exp_db)) then 1%nat
+        else if negb (keys_eqb hk exp_http) then 2%nat else 0%nat
+      | Panic, _, _ | _, Panic, _ | _, _, Panic => 6%nat
+      | _, _, _ => 4%nat
+      end) queries) (worse c_keys c_pts)
+  | CBatch what threshold count found ob oa ok =>
+    if negb ok then 6%nat
+    else if (found =? (match what with 0%nat | 5%nat => 0 | _ => count end)) && (ob =? oa) then 0%nat
+    else match what with 0%nat | 5%nat => 3%nat | _ => 1%nat end
   | CMulti i v s table points queries =>
     let universe := sort_keys (map fst points) in
     let get_db tk := match find (fun p => bytes_eqb (fst p) tk) points with Some (_, g) => g | None => Ok None end in
